@@ -101,6 +101,9 @@ def edge_programs() -> Iterator[Dict[str, Any]]:
             {**YB, "X2": ["y"]})
     yield P("choice_default_cond", [ybool(), Choice(prompt="c", defaults=[("X2", S("Y"))], children=[Cfg("X", "bool", prompt="x"), Cfg("X2", "bool", prompt="x2")])],
             {**YB, "X": ["y"]}, loads=["# default:\n# CONFIG_X is not set\n# default:\nCONFIG_X2=y\n"])
+    yield P("choice_default_cond_last", [ybool(), Choice(prompt="c", defaults=[("X", S("Y")), ("X2", None)], children=[Cfg("X", "bool", prompt="x"), Cfg("X2", "bool", prompt="x2")]),
+                                         Cfg("D", "int", defaults=[(L("1"), S("X")), (L("2"), None)])],
+            {**YB, "X": ["y"]})
     yield P("member_visibility", [ybool(), Choice(prompt="c", children=[Cfg("X", "bool", prompt="x", prompt_cond=S("Y")), Cfg("X2", "bool", prompt="x2")])],
             {**YB, "X": ["y"], "X2": ["y"]})
     yield P("member_depends", [ybool(), Choice(prompt="c", children=[Cfg("X", "bool", prompt="x", depends=[S("Y")]), Cfg("X2", "bool", prompt="x2")])],
@@ -200,6 +203,11 @@ def op_menu(item, k) -> List[tuple]:
     for i, t in enumerate(item["loads"]):
         ops.append(("load", t, True))
         ops.append(("load", t, False))
+    # save the current configuration and load that very file back (self-consistent: no stale entries)
+    ops.append(("saveload", True))
+    # files the tool itself wrote in another configuration of the same tree (one per settable option, first value)
+    for t in item.get("tool_files", []):
+        ops.append(("load", t, True))
     for s in k.unique_defined_syms:
         ops.append(("read", s.name))
     for i, _c in enumerate(k.unique_choices):
@@ -242,6 +250,15 @@ def explore_item(item, r: common.Result, only_history=None):
     ptext = files["Kconfig"]
     wdepth = item["wdepth"]
     stale_texts = set(item["loads"])
+    if "tool_files" not in item:
+        tf = []
+        for name, vals in item["setters"].items():
+            w = impl.Inst(files)
+            w.set(name, vals[0])
+            t = w.config_text()
+            if t not in tf:
+                tf.append(t)
+        item = dict(item, tool_files=tf)
 
     def build(h):
         return impl.replay_ops(files, h)
